@@ -42,7 +42,7 @@ def model_resolve(c, mctx, extra, idents, cross=True):
 
 def l2(c, ctx, exprs):
     """fend_core::evaluate on a fresh context per expression -> [('o'|'e'|'crash', text)]"""
-    outs = c.impl('units', [sx([Sym('eval'), ctx, e]) for e in exprs])
+    outs = U.impl_patient(c, [sx([Sym('eval'), ctx, e]) for e in exprs])
     res = []
     for o in outs:
         p = try_parse(o)
